@@ -277,6 +277,15 @@ def child_main():
                                 res["shacl"] = {"kind": "ok", "digest": shacl_digest(text)}
                             except Exception as e:
                                 res["shacl"] = {"kind": "ok", "digest": "unparseable:" + type(e).__name__}
+                            # the SHACL file channel (rdflib writes it as UTF-8 whatever the locale): same graph as the string
+                            fp = sim.path("child_out.ttl")
+                            try:
+                                sh.shex_graph(output_file=fp, output_format=fmt)
+                                with open(fp, encoding="utf-8") as f:
+                                    fd = shacl_digest(f.read())
+                            except Exception as e:
+                                fd = "file channel raised " + type(e).__name__
+                            res["shacl"]["file_equals_string"] = (fd == res["shacl"]["digest"])
                     except Exception as e:
                         res["shex" if fmt == SHEXC else "shacl"] = {"kind": "exc", "exc": type(e).__name__, "msg": str(e)[:120]}
             out.append(res)
@@ -391,6 +400,10 @@ def execute(scen, scratch):
                 elif (a["kind"], a.get("exc")) != (b["kind"], b.get("exc")):
                     violations.append(violation("shacl_iso", "exception_parity", [ci, case["channel"], a.get("exc"), b.get("exc")]))
                 continue
+            if b.get("file_equals_string") is False or (k == 1 and a.get("file_equals_string") is False):
+                violations.append(violation("file_equals_string", "shacl_differs_in_some_interpreter",
+                                            {"case": ci, "channel": case["channel"], "hashseed": scen["hashseeds"][k],
+                                             "ascii_locale": bool(scen.get("ascii_locale", [False] * 99)[k])}))
             if a["digest"] != b["digest"]:
                 sim.probes["shacl_digest_differs"] += 1
                 if exempt:
